@@ -120,8 +120,17 @@ class PydanticGrammar(BaseGrammar):
         self.__model_needs_rebuild = True
 
     def _copy(self, grammar: Self) -> None:  # noqa:D102
-        grammar.__model = copy(self.__model)
-        grammar.__model_needs_rebuild = self.__model_needs_rebuild
+        # The copy of a class is the class itself:
+        # derive a model with its own fields from the model of the original grammar.
+        grammar.__model = create_model(self.__model.__name__, __base__=self.__model)
+        if not hasattr(self.__model, "__internal__"):
+            # The derived model cannot be imported from a module:
+            # it shall be pickled like the models created in _clear.
+            grammar.__model.__internal__ = None  # type: ignore[attr-defined]
+        grammar.__model.__pydantic_parent_namespace__ = {}
+        # The fields may have been changed since the model was built.
+        grammar.__model.model_fields = dict(self.__model.model_fields)
+        grammar.__model_needs_rebuild = True
 
     def _rename_element(self, current_name: str, new_name: str) -> None:  # noqa:D102
         fields = self.__model.model_fields
